@@ -343,13 +343,19 @@ def finish(res, cfg, t0, seed):
     # tentative (hint-less / demoted) failures confirmed by ONE function-level witness are one violation, not many
     grouped = {}
     for v in list(res.violations):
-        if v.get('tentative') and v.get('witness'):
-            key = (v['unit'], v['fn'])
+        if v.get('witness') and v.get('back_end') != 'native' and (v.get('tentative') or v['witness'].get('test')):
+            # (also: several failed obligations of one function confirmed by the SAME concrete input)
+            key = (v['unit'], v['fn'], v['witness'].get('test'))
             if key in grouped:
                 grouped[key].setdefault('also_failed', []).append(v['obligation'])
                 res.violations.remove(v)
             else:
                 grouped[key] = v
+    for v in grouped.values():
+        if v.get('also_failed') and v.get('replay') and os.path.exists(v['replay']):
+            d = json.load(open(v['replay']))
+            d['also_failed_obligations_of_the_same_function'] = v['also_failed']
+            json.dump(d, open(v['replay'], 'w'), indent=1)
     for v in res.violations:
         matched = None
         for k in kf:
